@@ -187,7 +187,8 @@ def build_ooo_driver():
     vo = os.path.join(common.COQDIR, "Mgr", "OooSched.vo")
     ml = os.path.join(od, "ooo_model.ml")
     if (not os.path.exists(ml)) or os.path.getmtime(ml) < os.path.getmtime(vo):
-        common.run(["coqc", "-Q", "..", "IMB", "ExtractOoo.v"], cwd=os.path.join(common.COQDIR, "Extract"), check=True)
+        # Extraction "ooo_model.ml" is relative to coqc's working directory
+        common.run(["coqc", "-Q", common.COQDIR, "IMB", os.path.join(common.COQDIR, "Extract", "ExtractOoo.v")], cwd=od, check=True)
     if (not os.path.exists(exe)) or os.path.getmtime(exe) < max(os.path.getmtime(ml), os.path.getmtime(src)):
         common.run("cp %s %s/ && cd %s && ocamlfind ocamlopt -w -a ooo_model.mli ooo_model.ml ooo_driver.ml -o %s"
                    % (src, od, od, exe), check=True)
@@ -281,7 +282,9 @@ def main(tier, seed):
                            missing=miss, table=vtab), name="missing_variants")
     rng = Rng(seed)
     T = templates(C)
-    per = 6 if tier == "quick" else 24
+    # enough jobs per family to fill every lane of its manager several times over (lanes are recycled
+    # inside one batch: stale per-lane state left by a finished job must not leak into the next one)
+    per = 40 if tier == "quick" else 120
     sizes_small = [1, 8, 15, 16, 17, 31, 32, 33, 47, 48, 63, 64, 65, 100, 127, 128, 129, 255, 256, 257, 500, 1024, 1500]
     items = []      # (id, name, dict)
     for name, b in T:
@@ -316,7 +319,7 @@ def main(tier, seed):
             sh[i], sh[j] = sh[j], sh[i]
         write("mixed_%d.txt" % rep, sh[: 200 if tier == "quick" else 800])
     eps = "0,2"
-    batches = [2, 5, 17] if tier == "quick" else [2, 3, 4, 5, 8, 9, 16, 17, 33]
+    batches = [3, 17, 40] if tier == "quick" else [2, 3, 4, 5, 8, 9, 16, 17, 33, 64, 120]
     name_of = {i: n for (i, n, d) in items}
     # alone runs
     allf = os.path.join(workdir, "all.txt")
